@@ -186,3 +186,21 @@ Proof. exact tie_inverse_bounds. Qed.
 Theorem C12_roundtrip : forall v, (0 <= v <= 3)%Z -> roundtrip_typechecks v = true.
 Proof. exact roundtrip_ok. Qed.
 
+(* ---- T1: which trait methods are implemented (coq/gen/GenSigs.v gen_impl_methods) ---- *)
+From Coq Require Import String.
+From GA Require Import SigTie.
+From GAGen Require Import GenSigs.
+Local Open Scope string_scope.
+
+(* the marker impls (regenerated): exactly one Send, Sync and Copy impl for the array, Copy / Sealed for the storage nodes, and 72 trait impls for array types in all *)
+Theorem C12_source_marker_impls :
+  methods_of "Send for GenericArray<T,N>" = Some [] /\
+  methods_of "Sync for GenericArray<T,N>" = Some [] /\
+  methods_of "Copy for GenericArray<T,N>" = Some [] /\
+  methods_of "Copy for GenericArrayImplEven<T,U>" = Some [] /\
+  methods_of "Copy for GenericArrayImplOdd<T,U>" = Some [] /\
+  methods_of "Sealed for GenericArrayImplEven<T,U>" = Some [] /\
+  methods_of "Sealed for GenericArrayImplOdd<T,U>" = Some [] /\
+  List.length gen_impl_methods = 72%nat.
+Proof. repeat split. Qed.
+
